@@ -525,3 +525,193 @@ Proof.
     rewrite Hrp. reflexivity.
   - reflexivity.
 Qed.
+
+(* ---------------------------------------------------------------------------------- *)
+(* url_setter::start_part when the part is the last text of the URL: truncate, rewrite *)
+(* ---------------------------------------------------------------------------------- *)
+
+Lemma set_while_nz_length l v : length (set_while_nz l v) = length l.
+Proof.
+  induction l as [|x l IH]; [reflexivity|]. cbn [set_while_nz]. destruct (x =? 0); [reflexivity|].
+  cbn [length]. rewrite IH. reflexivity.
+Qed.
+
+Lemma nth_set_while_nz l v : forall m k,
+  (forall j, (j < m)%nat -> nth j l 0 <> 0) -> nth m l 0 = 0 ->
+  nth k (set_while_nz l v) 0 = if (k <? m)%nat then v else nth k l 0.
+Proof.
+  induction l as [|x l IH]; intros m k Hnz Hz.
+  - cbn [set_while_nz]. destruct k; destruct (_ <? m)%nat eqn:E; try reflexivity;
+      exfalso; apply (Hnz 0%nat); [apply Nat.ltb_lt in E; lia|reflexivity|apply Nat.ltb_lt in E; lia|reflexivity].
+  - cbn [set_while_nz]. destruct (N.eqb_spec x 0) as [Hx|Hx].
+    + assert (m = 0%nat) as -> by (destruct m; [reflexivity|exfalso; apply (Hnz 0%nat); [lia|exact Hx]]).
+      reflexivity.
+    + destruct m as [|m]; [cbn [nth] in Hz; lia|].
+      destruct k as [|k]; [reflexivity|]. cbn [nth].
+      change (S k <? S m)%nat with (k <? m)%nat. apply IH.
+      * intros j Hj. apply (Hnz (S j)). lia.
+      * exact Hz.
+Qed.
+
+Lemma set_while_nz_from_length l from v : length (set_while_nz_from l from v) = length l.
+Proof.
+  unfold set_while_nz_from. rewrite app_length, set_while_nz_length, firstn_length, skipn_length. lia.
+Qed.
+
+Lemma nth_set_while_nz_from l from n v k : (from <= n)%nat -> (from <= length l)%nat ->
+  (forall j, (from <= j < n)%nat -> nth j l 0 <> 0) -> nth n l 0 = 0 ->
+  nth k (set_while_nz_from l from v) 0 = if (from <=? k)%nat && (k <? n)%nat then v else nth k l 0.
+Proof.
+  intros Hfn Hfl Hnz Hz. unfold set_while_nz_from.
+  assert (Hl : length (firstn from l) = from) by (apply firstn_length_le; exact Hfl).
+  destruct (Nat.leb_spec from k) as [Hk|Hk]; cbn [andb].
+  - rewrite app_nth2 by lia. rewrite Hl.
+    rewrite (nth_set_while_nz _ v (n - from) (k - from)).
+    + rewrite nth_skipn_add. replace (from + (k - from))%nat with k by lia.
+      destruct (Nat.ltb_spec (k - from) (n - from)); destruct (Nat.ltb_spec k n); try lia; reflexivity.
+    + intros j Hj. rewrite nth_skipn_add. apply Hnz. lia.
+    + rewrite nth_skipn_add. replace (from + (n - from))%nat with n by lia. exact Hz.
+  - rewrite app_nth1 by lia. apply nth_firstn_lt. exact Hk.
+Qed.
+
+(* the pieces in front of part k, nothing behind *)
+Definition cut (ps : list str) (k : nat) : list str := firstn k ps ++ repeat [] (length ps - k).
+
+Lemma nth_cut ps k j : (k <= length ps)%nat -> nth j (cut ps k) [] = if (j <? k)%nat then nth j ps [] else [].
+Proof.
+  intro Hk. unfold cut.
+  assert (Hf : length (firstn k ps) = k) by (apply firstn_length_le; exact Hk).
+  destruct (Nat.ltb_spec j k).
+  - rewrite app_nth1 by lia. apply nth_firstn_lt. assumption.
+  - rewrite app_nth2 by lia. generalize (j - length (firstn k ps))%nat as i. generalize (length ps - k)%nat as m.
+    induction m as [|m IH]; intros [|i]; cbn; auto.
+Qed.
+
+Lemma cut_length ps k : (k <= length ps)%nat -> length (cut ps k) = length ps.
+Proof. intro H. unfold cut. rewrite app_length, firstn_length, repeat_length. lia. Qed.
+
+Lemma cut_PW ps n k : PW ps n -> (1 <= k <= n)%nat -> PW (cut ps k) k.
+Proof.
+  intros [Hlen Hn Hsch Htail] Hk. split.
+  - rewrite cut_length; lia.
+  - lia.
+  - rewrite nth_cut by lia. destruct (Nat.ltb_spec 0 k); [exact Hsch|lia].
+  - intros j Hj. rewrite nth_cut by lia. destruct (Nat.ltb_spec j k); [lia|reflexivity].
+Qed.
+
+Lemma pre_cut ps k j : (j <= k)%nat -> (k <= length ps)%nat -> pre j (cut ps k) = pre j ps.
+Proof.
+  intros Hj Hk. unfold cut. rewrite pre_app.
+  assert (Hf : length (firstn k ps) = k) by (apply firstn_length_le; exact Hk).
+  rewrite Hf. destruct (Nat.leb_spec j k); [|lia]. apply pre_firstn. exact Hj.
+Qed.
+
+Lemma concat_cut ps k : concat (cut ps k) = concat (firstn k ps).
+Proof. unfold cut. rewrite concat_app, concat_repeat_nil, app_nil_r. reflexivity. Qed.
+
+(* the truncation url_setter::start_part performs before it rewrites the last part *)
+Lemma truncate_conc ps n f c k :
+  PW ps n -> (1 <= k < n)%nat ->
+  let r := conc ps n f c in
+  let r1 := w_norm r (resize (r_norm r) (en r (pred k))) in
+  let r2 := set_e r1 k 0 in
+  w_ends r2 (set_while_nz_from (r_ends r2) (S k) 0) = conc (cut ps k) k f c.
+Proof.
+  intros HPW Hk. destruct HPW as [Hlen Hn Hsch Htail].
+  assert (Hnl : (n <= length ps)%nat) by lia.
+  cbv zeta. unfold w_ends, set_e, w_norm, w_ends, resize, conc. cbn [r_norm r_ends r_flags r_segs].
+  f_equal.
+  - change (en {| r_norm := concat ps; r_ends := ends_of ps n; r_flags := f; r_segs := c |} (pred k))
+      with (en (conc ps n f c) (pred k)).
+    rewrite en_conc by exact Hnl. destruct (Nat.ltb_spec (pred k) n); [|lia].
+    replace (S (pred k)) with k by lia. rewrite firstn_pre, concat_cut. reflexivity.
+  - assert (Hcl : length (cut ps k) = length ps) by (apply cut_length; lia).
+    apply (nth_ext _ _ 0 0).
+    + rewrite set_while_nz_from_length, upd_length, !ends_of_length; lia.
+    + intros j Hj. rewrite set_while_nz_from_length, upd_length, ends_of_length in Hj by lia.
+      assert (Hupd : forall i, nth i (upd (ends_of ps n) k 0) 0 =
+                               if (i =? k)%nat then 0 else if (i <? n)%nat then pre (S i) ps else 0).
+      { intro i. rewrite nth_upd, ends_of_length, nth_ends_of by lia.
+        destruct (Nat.eqb_spec i k); destruct (Nat.ltb_spec i (length ps)); cbn [andb]; try reflexivity.
+        destruct (Nat.ltb_spec i n); [lia|reflexivity]. }
+      rewrite (nth_set_while_nz_from _ (S k) (Nat.max n (S k)) 0 j).
+      * rewrite Hupd, nth_ends_of by lia.
+        destruct (Nat.leb_spec (S k) j); destruct (Nat.ltb_spec j (Nat.max n (S k))); cbn [andb];
+        destruct (Nat.eqb_spec j k); destruct (Nat.ltb_spec j n); destruct (Nat.ltb_spec j k); try lia; try reflexivity.
+        rewrite pre_cut by lia. reflexivity.
+      * lia.
+      * rewrite upd_length, ends_of_length; lia.
+      * intros i Hi. rewrite Hupd. destruct (Nat.eqb_spec i k); [lia|].
+        destruct (Nat.ltb_spec i n); [|lia]. pose proof (pre_pos ps (S i) Hsch ltac:(lia)). lia.
+      * rewrite Hupd. destruct (Nat.eqb_spec (Nat.max n (S k)) k); [reflexivity|].
+        destruct (Nat.ltb_spec (Nat.max n (S k)) n); [lia|reflexivity].
+Qed.
+
+Lemma find_last_part_conc ps n f c : PW ps n -> forall k, (n - 1 <= k)%nat ->
+  find_last_part (conc ps n f c) k = (n - 1)%nat.
+Proof.
+  intros HPW. assert (Hnl : (n <= length ps)%nat) by (destruct HPW; lia).
+  assert (Hn1 : (1 <= n)%nat) by (destruct HPW; lia).
+  induction k as [|p IH]; intro Hk.
+  - cbn [find_last_part]. unfold P_SCHEME. lia.
+  - cbn [find_last_part]. rewrite en_conc by exact Hnl.
+    destruct (Nat.ltb_spec (S p) n) as [Hlt|Hge].
+    + pose proof (pre_S_pos ps n (S p) HPW). destruct (N.eqb_spec (pre (S (S p)) ps) 0); [lia|]. cbn [negb]. lia.
+    + cbn [N.eqb negb]. apply IH. lia.
+Qed.
+
+Lemma setp_cut (ps : list str) k s : (k < length ps)%nat -> (forall j, (k < j)%nat -> nth j ps [] = []) ->
+  setp (cut ps k) k s = setp ps k s.
+Proof.
+  intros Hk Htl.
+  assert (Hc : length (cut ps k) = length ps) by (apply cut_length; lia).
+  apply (nth_ext _ _ [] []).
+  - unfold setp. rewrite !splice_length; lia.
+  - intros j Hj. rewrite !nth_setp by lia. destruct (Nat.eqb_spec j k); [reflexivity|].
+    rewrite nth_cut by lia. destruct (Nat.ltb_spec j k); [reflexivity|]. symmetry. apply Htl. lia.
+Qed.
+
+(* PORT, QUERY, FRAGMENT written when nothing follows the part: either the part exists and is the last text of the
+   URL (truncate and rewrite in place) or it was never written (find the last written part, fill the offsets) *)
+Theorem setter_write_simple ps n f c file k v :
+  PW ps n -> (6 <= n)%nat -> (k = P_PORT \/ k = P_QUERY \/ k = P_FRAGMENT) ->
+  (forall j, (k < j)%nat -> nth j ps [] = []) ->            (* no text follows part k *)
+  let s1 := run true (init_sst (conc ps n f c) file) [OStartPart k; OAppend v; OSavePart] in
+  s_r s1 = conc (setp ps k (sepc k ++ v)) (S k) f c /\ s_last s1 = k.
+Proof.
+  intros HPW Hn6 Hk Htl.
+  assert (Hlen : length ps = 11%nat) by (destruct HPW; assumption).
+  assert (Hnl : (n <= length ps)%nat) by (destruct HPW; lia).
+  assert (Hk10 : (6 <= k <= 10)%nat) by (unfold P_PORT, P_QUERY, P_FRAGMENT in Hk; lia).
+  cbn [run fold_left step]. unfold v_start_part, set_start_part.
+  cbn [init_sst w_curr s_r]. rewrite en_conc by exact Hnl.
+  destruct (Nat.ltb_spec k n) as [Hkn|Hkn].
+  - (* the part exists and is the last text: in place *)
+    pose proof (pre_S_pos ps n k HPW) as Hpos.
+    destruct (N.eqb_spec (pre (S k) ps) 0) as [E|_]; [lia|]. cbn [negb].
+    replace (len (r_norm (conc ps n f c))) with (len (concat ps)) by reflexivity.
+    rewrite (pre_tail ps (S k) (S k)) by (auto; intros; apply Htl; lia).
+    rewrite N.ltb_irrefl, Bool.andb_false_r.
+    pose proof (truncate_conc ps n f c k HPW ltac:(lia)) as Htr. cbv zeta in Htr.
+    cbn [s_r w_curr init_sst] in *. rewrite Htr.
+    pose proof (cut_PW ps n k HPW ltac:(lia)) as HPWc.
+    match goal with |- context [ser_start_part ?s0 k] =>
+      pose proof (start_append_save (cut ps k) k f c k v s0 HPWc ltac:(lia) ltac:(lia) eq_refl) as Hsas end.
+    cbv zeta in Hsas. specialize (Hsas ltac:(cbn; lia)).
+    unfold v_save_part, set_save_part.
+    match goal with |- context [s_use (do_append ?x v)] =>
+      replace (s_use (do_append x v)) with false
+        by (unfold do_append, ser_start_part; repeat match goal with |- context [if ?b then _ else _] => destruct b end; reflexivity) end.
+    rewrite setp_cut in Hsas by (auto; lia). exact Hsas.
+  - (* the part was never written *)
+    cbn [N.eqb negb].
+    rewrite (find_last_part_conc ps n f c HPW k ltac:(lia)).
+    match goal with |- context [ser_start_part ?s0 k] =>
+      pose proof (start_append_save ps n f c k v s0 HPW Hn6 ltac:(lia) eq_refl eq_refl) as Hsas end.
+    cbv zeta in Hsas.
+    unfold v_save_part, set_save_part.
+    match goal with |- context [s_use (do_append ?x v)] =>
+      replace (s_use (do_append x v)) with false
+        by (unfold do_append, ser_start_part; repeat match goal with |- context [if ?b then _ else _] => destruct b end; reflexivity) end.
+    exact Hsas.
+Qed.
